@@ -285,6 +285,14 @@ static void read_plan(const char *path) {
 extern void *__libc_malloc(size_t);
 
 __attribute__((constructor)) static void capysim_init(void) {
+    /* heap_hole: move the *whole* brk heap (its start, not only its later growth), so it has to
+       happen before the first allocation of the process - hence before fopen()/dlsym() below.
+       getenv() and strtol() do not allocate. The variable is always present with a fixed width
+       (the stack does not move with its value) and is removed again further down. */
+    const char *hh = getenv("CAPYSIM_HEAP_HOLE");
+    long heap_hole = hh ? strtol(hh, NULL, 10) : 0;
+    int heap_hole_failed = 0;
+    if (heap_hole > 0 && getenv("CAPYSIM_ARM") && sbrk(heap_hole) == (void *)-1) heap_hole_failed = 1;
     resolve();
     const char *plan = getenv("CAPYSIM_ARM");
     if (!plan || !*plan) return;
@@ -294,6 +302,7 @@ __attribute__((constructor)) static void capysim_init(void) {
     unsetenv("CAPYSIM_ARM");
     unsetenv("LD_PRELOAD");
     read_plan(planpath);
+    if (heap_hole_failed) logf_("heap_hole", "-", -1, "-");
 
     /* address probes: where did heap, stack, image and mappings end up in this world? */
     int on_stack = 0;
